@@ -57,6 +57,10 @@ QDiv(a, b)    == QMul(a, QInv(b))
 QEq(a, b)     == PMul(a.n, b.d) = PMul(b.n, a.d)
 QIsZero(a)    == PIsZero(a.n)
 QHasBad(a)    == PHasBad(a.n) \/ PHasBad(a.d)
+\* equality of rational functions where the bounded arithmetic sufficed to decide it: a coefficient beyond the
+\* 32-bit guard (RBad) in either operand or in a cross product makes the comparison vacuous, never false
+QEqSafe(a, b) == LET l == PMul(a.n, b.d)  r == PMul(b.n, a.d) IN
+                 QHasBad(a) \/ QHasBad(b) \/ PHasBad(l) \/ PHasBad(r) \/ l = r
 QDeriv(a, v)  == QF(PSub(PMul(PDeriv(a.n, v), a.d), PMul(a.n, PDeriv(a.d, v))), PMul(a.d, a.d))
 RECURSIVE QPowNat(_, _)
 QPowNat(a, k) == IF k = 0 THEN QFromP(PConst(ROne)) ELSE QMul(a, QPowNat(a, k - 1))
